@@ -84,7 +84,7 @@ func init() {
 	})
 }
 
-var tokenRE = regexp.MustCompile(`w[0-9a-z]+q`)
+var tokenRE = regexp.MustCompile(`w[0-9a-pr-vx-z]+q`)
 
 func near(a, b float64) bool {
 	return math.Abs(a-b) <= 0.02+1e-4*math.Max(math.Abs(a), math.Abs(b))
